@@ -13,7 +13,7 @@ class Prover:
         self.cap = 60 if tier == "quick" else 600
         self.cross_cap = 15 if tier == "quick" else 120
 
-    def prove(self, ex, goals, oidp, bound, functions, witness_fn=None, extra_info=None):
+    def prove(self, ex, goals, oidp, bound, functions, witness_fn=None, extra_info=None, covers=None):
         """goals: {name: formula that must hold under ex.assumes}.  witness_fn(name, model, negated_goal)
         must replay the model natively and return {'confirmed': bool, 'detail': str, 'replay_path': .., 'key': ..}."""
         R = self.R
@@ -29,6 +29,15 @@ class Prover:
                   solver_s=now() - t0, queries=1, **info)
             return {}
         R.extra["vacuity_witnesses_sat"] = R.extra.get("vacuity_witnesses_sat", 0) + 1
+        # reachability witnesses: each must be satisfiable at the exit (a twin whose assertion must FAIL)
+        for cname, cf in (covers or {}).items():
+            t0 = now()
+            stc, _, _ = decide(ex.assumes + eg, cf, self.cap)
+            if stc == "sat":
+                R.add("%s/cover/%s" % (oidp, cname), "holds", solver_s=now() - t0, queries=1, detail="reachability witness satisfied", **info)
+            else:
+                R.add("%s/cover/%s" % (oidp, cname), "inconclusive", solver_s=now() - t0, queries=1,
+                      detail="reachability witness is %s: the obligations of this harness may be vacuous" % stc, **info)
         # goals speak about the returned state: they are asked under the exit path condition;
         # panic / unwinding edges are asked WITHOUT it (assuming the exit is reached would assume them away)
         items = [(k, z3.And(*(eg + [z3.Not(f)]))) for k, f in goals.items()]
